@@ -74,9 +74,10 @@ class Report:
             self.undecided(getattr(fn, "__name__", str(fn)), e)
             return None
 
-    def run_only(self, rules, fn, *args, **kw):
+    def run_only(self, rules, fn, *args, constructs=None, **kw):
         """evaluate a rule family but take over only the obligations of the named rules (the clauses this property
-        states); args equal to this report are replaced by the scratch report"""
+        states) - optionally only those whose construct starts with one of `constructs`; args equal to this report
+        are replaced by the scratch report"""
         tmp = Report(self.prop, self.tier)
         tmp.run(fn, *[tmp if a is self else a for a in args], **{k: (tmp if v is self else v) for k, v in kw.items()})
         wanted = set(rules)
@@ -84,7 +85,7 @@ class Report:
             if rid in wanted:
                 self.rules[rid] = txt
         for o in tmp.obligations:
-            if o.rule in wanted:
+            if o.rule in wanted and (constructs is None or any(o.construct.startswith(c) for c in constructs)):
                 self.obligations.append(o)
         for n in tmp.notes:
             if any(n.startswith(r) for r in wanted):
